@@ -2,8 +2,14 @@
 Model: header codec of Model/Las.v (layouts from write_to/read_from on every run), Model/HeaderOps.v (API ops, calendar).
 Correspondence: LasHeader.write_to / read_from bytes and fields vs enc_header / dec_header on boundary values; every API entry on every
 (version, format) pair vs hstep; dates vs yday/of_yday. Search: field-by-field round trip, size/offset identities, in-place rewrite,
-compat invariant, directly on the implementation."""
+compat invariant, directly on the implementation. Every header is written as an OBJECT carrying auxiliary state chosen independently of
+its fields (EVLR list None / empty / shorter / longer than the counter, attached LasData with points, extra dimensions, compressed flag,
+stale offset, read from a file / deep-copied, ensure_same_size) and the written bytes are parsed here, with struct at the ASPRS offsets,
+and compared field by field with the attribute's own value; the headers that LasWriter / LasAppender / LasData.write put into files are
+judged the same way."""
+import copy
 import io
+import struct
 from datetime import date, timedelta
 
 import numpy as np
@@ -24,10 +30,15 @@ def special_doubles(rng):
 
 def boundary_header(rng, ver=None):
     import laspy
-    import uuid
     ver = ver or rng.choice(lasio.VERSIONS)
     fmt = rng.choice(lasio.COMPAT[ver])
-    h = laspy.LasHeader(version=ver, point_format=fmt)
+    return fill_fields(rng, laspy.LasHeader(version=ver, point_format=fmt))
+
+
+def fill_fields(rng, h):
+    """boundary values in every field of an existing header object (whatever else it carries)"""
+    import uuid
+    ver = str(h.version)
     h.file_source_id = rng.choice([0, 65535, rng.randrange(65536)])
     h.global_encoding.value = rng.choice([0, 0xFFFF, rng.randrange(65536)])
     h.uuid = uuid.UUID(bytes=bytes(rng.randrange(256) for _ in range(16)))
@@ -57,26 +68,209 @@ def boundary_header(rng, ver=None):
     return h
 
 
+class Item:
+    """a header object to be written: h, ensure_same_size, the auxiliary state it carries (labels), objects kept alive"""
+
+    def __init__(self, h, es=False, aux=(), keep=None):
+        self.h, self.es, self.aux, self.keep = h, es, tuple(aux), keep
+
+
+EVLR_STATES = ["none", "empty", "one", "three"]
+
+
+def aux_header(rng):
+    """a header object whose auxiliary state is chosen independently of its field values"""
+    import laspy
+    from laspy.vlrs.vlrlist import VLRList
+    ver = rng.choice(["1.1", "1.2", "1.3", "1.4", "1.4", "1.4"])
+    fmt = rng.choice(lasio.COMPAT[ver])
+    aux, keep = [], []
+    origin = rng.choice(["constructor", "constructor", "file", "file-evlrs-deferred", "file-undocumented-extra-bytes", "writer", "lasdata"])
+    h = laspy.LasHeader(version=ver, point_format=fmt)
+    if rng.random() < 0.3:
+        lasio.add_extra_dims(rng, h, rng.choice([1, 2, 3]))
+        aux.append("extra-dims")
+    if origin != "constructor":
+        # the header object comes out of the file API: it carries whatever that API attached to it
+        src = laspy.LasHeader(version=ver, point_format=h.point_format)
+        pts = lasio.rand_points(rng, src, rng.choice([0, 1, 5]))
+        evl = VLRList([lasio.rand_vlr(rng, 30) for _ in range(rng.choice([0, 1, 2]))]) if ver == "1.4" else []
+        raw = lasio.write_las(src, pts, evl)
+        if origin == "file":
+            h = laspy.open(io.BytesIO(raw)).header
+        elif origin == "file-undocumented-extra-bytes":
+            # records longer than what the format and its ExtraBytes VLR (if any) document: the header object read from
+            # such a file carries a point format padded to the record length
+            h = laspy.open(io.BytesIO(undocumented_extra(raw, rng.choice([1, 3, 16]), rng))).header
+        elif origin == "file-evlrs-deferred":
+            h = laspy.open(io.BytesIO(raw), read_evlrs=False).header
+        elif origin == "writer":
+            w = laspy.LasWriter(io.BytesIO(), laspy.open(io.BytesIO(raw)).header, closefd=False)
+            if len(pts):
+                w.write_points(pts)
+            h = w.header
+            keep.append(w)
+        else:
+            las = laspy.read(io.BytesIO(raw))
+            h = las.header
+            keep.append(las)
+        aux.append("from-" + origin + (f"(evlrs{len(evl)})" if ver == "1.4" else ""))
+    if rng.random() < 0.25 and origin in ("constructor", "file"):
+        las = laspy.LasData(h)
+        las.points = lasio.rand_points(rng, h, rng.choice([1, 4]))
+        keep.append(las)
+        aux.append("attached-to-LasData-with-points")
+    fill_fields(rng, h)
+    # attributes of later versions exist on every header object (not serialised before 1.3 / 1.4)
+    if ver < "1.3":
+        h.start_of_waveform_data_packet_record = rng.choice([0, 1, rng.getrandbits(64)])
+    if ver < "1.4":
+        h.start_of_first_evlr = rng.choice([0, 375, rng.getrandbits(64)])
+    # the EVLR list, whatever the counter says (and in every version: before 1.4 neither is serialised)
+    st = rng.choice(EVLR_STATES)
+    h.evlrs = None if st == "none" else VLRList([lasio.rand_vlr(rng, 20) for _ in range({"empty": 0, "one": 1, "three": 3}[st])])
+    h.number_of_evlrs = rng.choice([0, 0, 1, 2, 3, 4, 2 ** 32 - 1])
+    aux.append(f"evlrs-{st}/counter-{h.number_of_evlrs}")
+    if rng.random() < 0.2:
+        h.are_points_compressed = True
+        aux.append("compressed-flag")
+    if rng.random() < 0.2:
+        h.system_identifier = h.system_identifier.encode("ascii")
+        h.generating_software = h.generating_software.encode("ascii")
+        aux.append("bytes-strings")
+    if rng.random() < 0.2:
+        h = copy.deepcopy(h)
+        aux.append("deep-copied")
+    # offset_to_point_data as left by an earlier life of the object; ensure_same_size asks write_to to respect it
+    es = rng.random() < 0.35
+    k = rng.random()
+    if k < 0.3:
+        h.offset_to_point_data = rng.choice([0, 1, 227, 375, 2 ** 32 - 1, rng.randrange(1, 5000)])
+        aux.append("stale-offset")
+    elif k < 0.75:
+        h.offset_to_point_data = expected_offset(h) + rng.choice([0, 0, 0, 1, -1])
+        aux.append("offset-kept")
+    if es:
+        aux.append("ensure_same_size")
+    return Item(h, es, aux, keep)
+
+
+def undocumented_extra(raw, delta, rng):
+    """the same file with `delta` undocumented bytes appended to every point record (byte surgery, as in harness/props/c05.py)"""
+    minor = raw[25]
+    off = struct.unpack_from("<I", raw, 96)[0]
+    L = struct.unpack_from("<H", raw, 105)[0]
+    n = struct.unpack_from("<Q", raw, 247)[0] if minor >= 4 else struct.unpack_from("<I", raw, 107)[0]
+    out = bytearray(raw[:off])
+    for i in range(n):
+        out += raw[off + i * L: off + (i + 1) * L] + bytes(rng.randrange(256) for _ in range(delta))
+    out += raw[off + n * L:]
+    struct.pack_into("<H", out, 105, L + delta)
+    if minor >= 4 and struct.unpack_from("<Q", out, 235)[0]:
+        struct.pack_into("<Q", out, 235, struct.unpack_from("<Q", out, 235)[0] + n * delta)
+    return bytes(out)
+
+
+SIZES = {"1.1": 227, "1.2": 227, "1.3": 235, "1.4": 375}
+
+
+def expected_offset(h):
+    return SIZES[str(h.version)] + len(h.extra_header_bytes) + sum(54 + len(v.record_data_bytes()) for v in h.vlrs) + len(h.extra_vlr_bytes)
+
+
 _HDRS = None
 
 
 def headers(ctx):
     global _HDRS
     if _HDRS is None:
-        _HDRS = [boundary_header(ctx.rng) for _ in range(ctx.n(400, 5000))]
+        _HDRS = [Item(boundary_header(ctx.rng)) for _ in range(ctx.n(300, 5000))]
+        _HDRS += [aux_header(ctx.rng) for _ in range(ctx.n(300, 5000))]
         # every string length 0..32 exhaustively
         for L in range(33):
             h = boundary_header(ctx.rng)
             h.system_identifier = lasio.rand_ascii(ctx.rng, L)
             h.generating_software = lasio.rand_ascii(ctx.rng, 32 - L)
-            _HDRS.append(h)
+            _HDRS.append(Item(h))
+        for it in _HDRS:
+            # the fields as the object holds them BEFORE it is written (write_to updates offset_to_point_data)
+            it.before = lasio.header_assoc(it.h)
+            it.vlrs_before = [lasio.vlr_tuple(v) for v in it.h.vlrs]
+            try:
+                it.raw, it.err = write_header(it.h, it.es), None
+            except Exception as ex:
+                it.raw, it.err = None, ex
     return _HDRS
 
 
-def write_header(h):
+def write_header(h, es=False):
     b = io.BytesIO()
-    h.write_to(b)
+    if es:
+        h.write_to(b, ensure_same_size=True)
+    else:
+        h.write_to(b)
     return b.getvalue()
+
+
+def parse_header_bytes(raw):
+    """the public header block read with struct at the offsets of the ASPRS tables; names as in lasio.header_assoc"""
+    d = {}
+    u = lambda fmt, off: struct.unpack_from("<" + fmt, raw, off)[0]   # noqa: E731
+    d["signature"] = bytes(raw[0:4])
+    d["file_source_id"] = u("H", 4)
+    d["global_encoding"] = u("H", 6)
+    d["uuid"] = bytes(raw[8:24])
+    d["version.major"], d["version.minor"] = raw[24], raw[25]
+    d["system_identifier"] = bytes(raw[26:58]).rstrip(b"\0")
+    d["generating_software"] = bytes(raw[58:90]).rstrip(b"\0")
+    d["creation_yday"], d["creation_year"] = u("H", 90), u("H", 92)
+    d["header_size"] = u("H", 94)
+    d["offset_to_point_data"] = u("I", 96)
+    d["number_of_vlrs"] = u("I", 100)
+    d["point_format_id"] = raw[104]
+    d["point_size"] = u("H", 105)
+    d["legacy_point_count"] = u("I", 107)
+    legacy = [u("I", 111 + 4 * i) for i in range(5)]
+    for j, nm in enumerate(("scales", "offsets")):
+        for i in range(3):
+            d[f"{nm}[{i}]"] = u("Q", 131 + 24 * j + 8 * i)
+    for i in range(3):
+        d[f"maxs[{i}]"] = u("Q", 179 + 16 * i)
+        d[f"mins[{i}]"] = u("Q", 187 + 16 * i)
+    minor = raw[25]
+    if minor >= 3:
+        d["start_of_waveform"] = u("Q", 227)
+    if minor >= 4:
+        d["start_of_first_evlr"] = u("Q", 235)
+        d["number_of_evlrs"] = u("I", 243)
+        d["point_count"] = u("Q", 247)
+        for i in range(15):
+            d[lasio.BY_RET[i]] = u("Q", 255 + 8 * i)
+    else:
+        d["point_count"] = d["legacy_point_count"]
+        for i in range(5):
+            d[lasio.BY_RET[i]] = legacy[i]
+    d["extra_header_bytes"] = bytes(raw[SIZES[f"{raw[24]}.{minor}"]:d["header_size"]]) if f"{raw[24]}.{minor}" in SIZES else b""
+    return d
+
+
+DERIVED = ("header_size", "offset_to_point_data", "number_of_vlrs")
+
+
+def own_fields(d, version):
+    """the plain fields of a header of that version: name -> the attribute's own value"""
+    out = {}
+    for k, v in d.items():
+        if k in DERIVED or k == "extra_vlr_bytes":
+            continue
+        if k.startswith("number_of_points_by_return") and version < "1.4" and int(k.split("[")[1][:-1]) >= 5:
+            continue
+        if k in ("start_of_first_evlr", "number_of_evlrs") and version < "1.4":
+            continue
+        if k == "start_of_waveform" and version < "1.3":
+            continue
+        out[k] = v
+    return out
 
 
 def api_ops(ctx):
@@ -185,29 +379,33 @@ def correspond(ctx):
                          "yday/of_yday. non-trivial = non-default field values / an op on an illegal pair; distinct by bytes / op list")
     dis = []
     hs = headers(ctx)
-    cmds, exp = [], []
-    for h in hs:
-        try:
-            raw = write_header(h)
-        except Exception as ex:
-            raw = None
-            err = common.exc_kind(ex)
-        d = lasio.header_assoc(h)
-        cmds.append(f"enc_header {lasio.assoc_tok(d)} {lasio.vlrs_tok(h.vlrs)} F")
-        exp.append(("ok " + common.hexb(raw)) if raw is not None else ("err " + err))
-        if raw is not None and h.number_of_evlrs <= 100000:   # the model bounds EVLR counts (MAX_VLRS); larger ones: oracle only
-            cmds.append(f"dec_header {common.hexb(raw + b'trailing-bytes')} F")
-            exp.append(raw)
+    cmds, exp, who = [], [], []
+    for it in hs:
+        h = it.h
+        cmds.append(f"enc_header {lasio.assoc_tok(it.before)} {lasio.vlrs_tok(it.vlrs_before)} {'T' if it.es else 'F'}")
+        exp.append(("ok " + common.hexb(it.raw)) if it.raw is not None else ("err " + common.exc_kind(it.err)))
+        who.append(it)
+        if it.raw is not None and it.before["number_of_evlrs"] <= 100000:   # the model bounds EVLR counts (MAX_VLRS); larger ones: oracle only
+            cmds.append(f"dec_header {common.hexb(it.raw + b'trailing-bytes')} F")
+            exp.append(it.raw)
+            who.append(it)
     outs = common.run_model(cmds)
     import laspy
-    for c, e, o in zip(cmds, exp, outs):
+    for c, e, o, it in zip(cmds, exp, outs, who):
         ctx.traces += 1
         if c.startswith("enc_header"):
-            ctx.case(e, nontrivial=True, sample={"written_header_bytes": len(e) // 2})
+            ctx.case(e, nontrivial=True, sample={"written_header_bytes": len(e) // 2, "auxiliary_state": list(it.aux)})
             ctx.count("header:" + ("ok" if e.startswith("ok") else e))
+            for a in it.aux:
+                ctx.count("aux:" + a.split("(")[0].split("/")[0])
             got = o.split(" ")
             if (e.startswith("ok") and (got[0] != "ok" or got[1] != e[3:])) or (e.startswith("err") and o != e):
-                dis.append({"kind": "header write_to bytes", "input": {"cmd": c[:200]}, "model": o[:120], "impl": e[:120]})
+                where = ""
+                if e.startswith("ok") and got[0] == "ok":
+                    a, b = bytes.fromhex(got[1][1:]), bytes.fromhex(e[4:])
+                    where = next((i for i in range(min(len(a), len(b))) if a[i] != b[i]), min(len(a), len(b)))
+                dis.append({"kind": "header write_to bytes", "input": {"auxiliary_state": list(it.aux), "version": str(it.h.version), "first_differing_byte": where, "cmd": c[:200]},
+                            "model": o[:120], "impl": e[:120]})
         else:
             back = laspy.LasHeader.read_from(io.BytesIO(e + b"trailing-bytes"))
             t = o.split(" ")
@@ -261,44 +459,63 @@ def search(ctx, seeds):
         if kind not in seen:
             seen.add(kind)
             failing.append({"kind": kind, "input": inp, "observed": why})
-    sizes = {"1.1": 227, "1.2": 227, "1.3": 235, "1.4": 375}
-    for h in headers(ctx):
-        d0 = lasio.header_assoc(h)
-        inp = {"version": str(h.version), "system_identifier": h.system_identifier, "generating_software": h.generating_software,
-               "creation_date": str(h.creation_date), "vlrs": len(h.vlrs), "extra": len(h.extra_header_bytes), "pad": len(h.extra_vlr_bytes)}
-        try:
-            raw = write_header(h)
-        except Exception as ex:
-            add("header write failed", inp, repr(ex))
+    for it in headers(ctx):
+        h, d0 = it.h, it.before
+        ver = f"{d0['version.major']}.{d0['version.minor']}"
+        inp = {"version": ver, "auxiliary_state": list(it.aux), "ensure_same_size": it.es, "system_identifier": lasio.sbytes(h.system_identifier).decode("ascii"),
+               "generating_software": lasio.sbytes(h.generating_software).decode("ascii"),
+               "creation_date": str(h.creation_date), "vlrs": len(h.vlrs), "extra": len(h.extra_header_bytes), "pad": len(h.extra_vlr_bytes),
+               "number_of_evlrs": d0["number_of_evlrs"], "evlrs_attached": None if h.evlrs is None else len(h.evlrs), "point_count": d0["point_count"]}
+        vlr_bytes = sum(54 + len(v[3]) for v in it.vlrs_before)
+        hs = SIZES[ver] + len(d0["extra_header_bytes"])
+        want_off = hs + vlr_bytes + len(d0["extra_vlr_bytes"])
+        if it.es and d0["offset_to_point_data"] != want_off:
+            # an in-place rewrite that would move the points must be refused
+            if it.raw is not None:
+                add("in-place rewrite of a resized header accepted", inp, f"the object says offset {d0['offset_to_point_data']}, the header occupies {want_off}; write_to(ensure_same_size=True) wrote {len(it.raw)} bytes")
+            elif common.exc_kind(it.err) != "ELaspy":
+                add("header write failed", inp, repr(it.err))
             continue
-        vlr_bytes = sum(54 + len(v.record_data_bytes()) for v in h.vlrs)
-        hs = sizes[str(h.version)] + len(h.extra_header_bytes)
+        if it.raw is None:
+            add("header write failed", inp, repr(it.err))
+            continue
+        raw = it.raw
         if int.from_bytes(raw[94:96], "little") != hs:
             add("header size field", inp, f"{int.from_bytes(raw[94:96], 'little')} != {hs}")
         off = int.from_bytes(raw[96:100], "little")
-        if off != hs + vlr_bytes + len(h.extra_vlr_bytes) or len(raw) != off:
-            add("offset identity", inp, f"offset {off}, header {hs} + vlrs {vlr_bytes} + pad {len(h.extra_vlr_bytes)}, written {len(raw)}")
+        if off != want_off or len(raw) != off:
+            add("offset identity", inp, f"offset {off}, header {hs} + vlrs {vlr_bytes} + pad {len(d0['extra_vlr_bytes'])}, written {len(raw)}")
+        # the bytes, field by field, against the attribute's own value (no reader involved)
+        p = parse_header_bytes(raw)
+        for k, v in own_fields(d0, ver).items():
+            if p.get(k) != v:
+                add(f"field {k.split('[')[0]} not written from its own value", dict(inp, field=k), f"the attribute holds {v!r}, the bytes of the field hold {p.get(k)!r}")
+        if p["number_of_vlrs"] != len(it.vlrs_before):
+            add("field number_of_vlrs not written from its own value", inp, f"{len(it.vlrs_before)} VLRs, the field holds {p['number_of_vlrs']}")
+        if raw[off - len(d0["extra_vlr_bytes"]):off] != d0["extra_vlr_bytes"] if d0["extra_vlr_bytes"] else False:
+            add("field extra_vlr_bytes not written from its own value", inp, "")
         try:
             back = laspy.LasHeader.read_from(io.BytesIO(raw))
         except Exception as ex:
             add("header read failed", inp, repr(ex))
             continue
         d1 = lasio.header_assoc(back)
-        for k, v in d0.items():
-            if k in ("header_size", "offset_to_point_data", "number_of_vlrs"):
-                continue
-            if k.startswith("number_of_points_by_return") and str(h.version) < "1.4" and int(k.split("[")[1][:-1]) >= 5:
-                continue
-            if k in ("start_of_first_evlr", "number_of_evlrs") and str(h.version) < "1.4":
-                continue
-            if k == "start_of_waveform" and str(h.version) < "1.3":
-                continue
+        for k, v in own_fields(d0, ver).items():
             if d1.get(k) != v:
                 add(f"field {k.split('[')[0]} not reproduced", dict(inp, field=k), f"wrote {v!r}, read {d1.get(k)!r}")
-        if back.creation_date != h.creation_date:
-            add("creation date not reproduced", inp, f"wrote {h.creation_date}, read {back.creation_date}")
-        if [lasio.vlr_tuple(v) for v in back.vlrs] != [lasio.vlr_tuple(v) for v in h.vlrs]:
+        if d1["extra_vlr_bytes"] != d0["extra_vlr_bytes"]:
+            add("field extra_vlr_bytes not reproduced", inp, f"wrote {d0['extra_vlr_bytes']!r}, read {d1['extra_vlr_bytes']!r}")
+        cd = date(d0["creation_year"], 1, 1) + timedelta(d0["creation_yday"] - 1)
+        if back.creation_date != cd:
+            add("creation date not reproduced", inp, f"wrote {cd}, read {back.creation_date}")
+        if [lasio.vlr_tuple(v) for v in back.vlrs] != it.vlrs_before:
             add("VLRs of the header not reproduced", inp, "")
+        # writing must not change the object's own fields (the three computed ones aside)
+        d2 = lasio.header_assoc(h)
+        for k, v in own_fields(d0, ver).items():
+            if d2.get(k) != v:
+                add(f"write_to changed the attribute {k.split('[')[0]}", dict(inp, field=k), f"{v!r} -> {d2.get(k)!r}")
+    file_api(ctx, add)
     # in-place rewrite: the header changes size between open and close
     for trial in range(ctx.n(60, 400)):
         rng = ctx.rng
@@ -372,6 +589,105 @@ def search(ctx, seeds):
             if r[0] == "err" and not r[3]:
                 add("failed call changed the header", {"start": s, "ops": [op_tok(o) for o in ops[:j + 1]]}, f"header became {st}")
     return failing[:8]
+
+
+def walk_evlrs(raw, start, count):
+    """position after `count` EVLRs laid out from `start`, or None if they do not fit the file"""
+    pos = start
+    for _ in range(count):
+        if pos + 60 > len(raw):
+            return None
+        pos += 60 + struct.unpack_from("<Q", raw, pos + 20)[0]
+    return pos if pos <= len(raw) else None
+
+
+def file_api(ctx, add):
+    """the header objects of LasWriter / LasAppender / LasData.write: the header in the file must hold the object's own fields
+    after close, and its EVLR fields must describe the EVLRs that are actually in the file"""
+    import laspy
+    from laspy.vlrs.vlrlist import VLRList
+    rng = ctx.rng
+    for trial in range(ctx.n(120, 1500)):
+        ver = rng.choice(["1.1", "1.2", "1.3", "1.4", "1.4", "1.4", "1.4"])
+        h = lasio.rand_header(rng, version=ver)
+        if rng.random() < 0.25:
+            lasio.add_extra_dims(rng, h, rng.choice([1, 2]))
+        pts = lasio.rand_points(rng, h, rng.choice([0, 1, 7]))
+        evl = VLRList([lasio.rand_vlr(rng, 40) for _ in range(rng.choice([0, 1, 1, 2, 3]))]) if ver == "1.4" else VLRList()
+        src = lasio.write_las(h, pts, evl)
+        scen = rng.choice(["chunked-copy", "chunked-copy+evlrs", "writer-no-points", "appender", "appender-no-points", "lasdata-write",
+                           "lasdata-write-evlrs-cleared", "lasdata-write-evlrs-grown", "convert-write", "writer-of-modified-header"])
+        inp = {"scenario": scen, "version": ver, "format": h.point_format.id, "points": len(pts), "evlrs_in_source": len(evl), "seed_trial": trial}
+        ctx.count("file-api:" + scen)
+        full = True       # the object compared is the very object that was serialised
+        try:
+            out = io.BytesIO()
+            if scen.startswith("chunked-copy") or scen in ("writer-no-points", "writer-of-modified-header"):
+                with laspy.open(io.BytesIO(src), read_evlrs=rng.random() < 0.7) as rd:
+                    hdr = rd.header
+                    if scen == "writer-of-modified-header":
+                        # stale counters in the header handed over; the caller keeps modifying ITS object after the writer exists
+                        hdr = copy.deepcopy(hdr)
+                        hdr.number_of_evlrs = rng.choice([0, 2, 7])
+                        hdr.start_of_first_evlr = rng.choice([0, 12345])
+                        hdr.point_count = rng.choice([0, 99])
+                    w = laspy.open(out, mode="w", header=hdr, closefd=False)
+                    if scen == "writer-of-modified-header":
+                        hdr.file_source_id = (hdr.file_source_id + 1) % 65536
+                        hdr.number_of_evlrs = 5
+                        hdr.evlrs = VLRList([lasio.rand_vlr(rng, 10)])
+                    if scen != "writer-no-points":
+                        for chunk in rd.chunk_iterator(rng.choice([1, 3, 100])):
+                            w.write_points(chunk)
+                    written = 0
+                    if scen == "chunked-copy+evlrs" and ver == "1.4":
+                        if rd.evlrs is None:
+                            rd.read_evlrs()
+                        w.write_evlrs(rd.evlrs)
+                        written = len(rd.evlrs)
+                    w.close()
+                    obj = w.header
+            elif scen.startswith("appender"):
+                out = io.BytesIO(src)
+                with laspy.open(out, mode="a", closefd=False) as ap:
+                    if scen == "appender":
+                        ap.append_points(lasio.rand_points(rng, ap.header, rng.choice([1, 3])))
+                    obj = ap.header
+                written = len(evl)
+            else:
+                las = laspy.read(io.BytesIO(src))
+                if scen == "lasdata-write-evlrs-cleared" and ver == "1.4":
+                    las.evlrs = VLRList()
+                elif scen == "lasdata-write-evlrs-grown" and ver == "1.4":
+                    las.evlrs.append(lasio.rand_vlr(rng, 30))
+                elif scen == "convert-write":
+                    las = laspy.convert(las, file_version="1.4") if rng.random() < 0.5 else laspy.convert(las)
+                las.write(out)
+                obj, full = las.header, False     # LasData.write serialises a private copy of las.header
+                written = len(las.evlrs) if las.evlrs is not None and obj.version.minor >= 4 else 0
+            raw = out.getvalue()
+            p = parse_header_bytes(raw)
+            d = lasio.header_assoc(obj)
+            over = f"{p['version.major']}.{p['version.minor']}"
+            skip = () if full else ("point_count", "maxs", "mins", "number_of_points_by_return", "start_of_first_evlr", "number_of_evlrs")
+            for k, v in own_fields(d, over).items():
+                if k.split("[")[0] in skip:
+                    continue
+                if p.get(k) != v:
+                    add(f"file header: field {k.split('[')[0]} differs from the header object that was written", dict(inp, field=k),
+                        f"after close the object holds {v!r}, the file holds {p.get(k)!r}")
+            if p["version.minor"] >= 4:
+                if p["number_of_evlrs"] != written:
+                    add("file header: number_of_evlrs does not count the EVLRs in the file", inp,
+                        f"the header announces {p['number_of_evlrs']} EVLR(s) at offset {p['start_of_first_evlr']}; {written} were written")
+                elif written:
+                    end = walk_evlrs(raw, p["start_of_first_evlr"], written)
+                    pts_end = p["offset_to_point_data"] + p["point_count"] * p["point_size"]
+                    if end != len(raw) or p["start_of_first_evlr"] < pts_end:
+                        add("file header: start_of_first_evlr does not lead to the EVLRs", inp,
+                            f"start_of_first_evlr {p['start_of_first_evlr']}, points end at {pts_end}, {written} EVLR(s) from there end at {end}, file has {len(raw)} bytes")
+        except Exception as ex:
+            add("file API scenario raises", inp, repr(ex))
 
 
 def replay(ctx, data):
